@@ -567,22 +567,27 @@ def check_nary_forms(ctx):
     w = repo.walker(max_paths=ctx.max_paths)
     seen = {}
     from ..expr import conj, negate
+    import re as _re
+
+    def norm(t):
+        # locals of an expanded helper carry a numeric suffix (B__1): the same variables
+        return _re.sub(r'\b(\w+?)__\d+\b', r'\1', t)
     for p in w.paths(nary.node):
         gt = set()
         for g_, pol_ in p.guards:
             for c_ in conj(g_ if pol_ else negate(g_)):
-                gt.add(canon(c_))
+                gt.add(norm(canon(c_)))
         r = p.ret()
         if p.raises() or r is None or call_name(r) != 'NaryExpr':
             continue
-        args = [canon(x) for x in r.args]
+        args = [norm(canon(x)) for x in r.args]
         single = ('(len(%s) + -1 == 0)' % B) in gt or ('(len(%s) == 1)' % B) in gt
         if ('not %s' % Cn) in gt and single and ('isinstance(%s[0], dict)' % B) in gt:
             seen['dict'] = args == [A, '[]', '%s[0]' % B, 'op']
         elif ('not %s' % Cn) in gt and single and ('isinstance(%s[0], (list, tuple,))' % B) in gt:
             seen['list'] = args == [A, '%s[0]' % B, '{}', 'op']
         elif Cn in gt:
-            seen['keyword'] = args[0] == A and args[1] == B and args[3] == 'op' and '_encode_to_ascii_or_fail' in args[2] and ('%s.items()' % Cn) in args[2]
+            seen['keyword'] = args[0] == A and args[1] == B and args[3] == 'op' and 'ascii' in args[2] and ('%s.items()' % Cn) in args[2]
         elif ('not %s' % Cn) in gt and not single:
             seen['positional'] = args == [A, B, Cn, 'op']
     want = ('dict', 'list', 'keyword', 'positional')
@@ -592,7 +597,7 @@ def check_nary_forms(ctx):
     else:
         ctx.violation(rule, nary, 'nary forms %s' % {k: seen.get(k) for k in want}, 'the call form(s) %s do not build NaryExpr(subject, positional options, keyword options, op) from what the caller wrote' % bad, nary.node.lineno)
     # both / neither rejected: asserts at entry and exit
-    asserts = [canon(n.test) for n in ast.walk(nary.node) if isinstance(n, ast.Assert)]
+    asserts = [norm(canon(n.test)) for n in ast.walk(nary.node) if isinstance(n, ast.Assert)]
     if any(t == '(%s or %s)' % (B, Cn) for t in asserts) and any(t in ('(not %s or not %s)' % (B, Cn), 'not (%s and %s)' % (B, Cn)) for t in asserts):
         ctx.holds(rule, nary, 'assert B or C; assert not (B and C)', 'exactly one of positional / keyword options', nary.node.lineno)
     else:
